@@ -163,8 +163,9 @@ class Analysis:
         if isinstance(t, ast.Attribute):
             self._field_writes.setdefault(t.attr, []).append((value, fn, t))
         elif isinstance(t, (ast.Tuple, ast.List)):
-            for e in t.elts:
-                self._index_target(e, None, fn)
+            same = isinstance(value, (ast.Tuple, ast.List)) and len(value.elts) == len(t.elts) and not any(isinstance(x, ast.Starred) for x in list(value.elts) + list(t.elts))
+            for i, e in enumerate(t.elts):
+                self._index_target(e, value.elts[i] if same else None, fn)
 
     def own_nodes(self, fn):
         """AST nodes belonging to fn itself (nested defs/lambdas excluded,
